@@ -198,6 +198,17 @@ EncIdentityItem(x) == EncCPFItem(12, U16(x.version) \o BE16(x.family) \o BE16(x.
                                      \o U16(x.product) \o U16(x.revision) \o U16(x.status) \o x.serial \o <<Len(x.name)>> \o x.name \o <<x.state>>)
 \* List Services reply item (0x0100): version, capability flags, NUL-terminated service name
 EncServicesItem(x) == EncCPFItem(256, U16(x.version) \o U16(x.capability) \o x.name \o <<0>>)
+\* C08: a tag changed without an acknowledgement is not corrupted if what it now holds was literally sent: for every changed
+\* tag, the octets of its changed element range appear contiguously in the input (a complete write that was carried out
+\* although the envelope around it was damaged and the request was answered with an error)
+ContainsOctets(big, small) == \E off \in 0 .. (Len(big) - Len(small)) : SubSeq(big, off + 1, off + Len(small)) = small
+WrittenFromInput(before, after, octets) ==
+  \A tg \in 1 .. Len(before) :
+     IF before[tg] = after[tg] THEN TRUE ELSE
+     LET ch == { i \in 1 .. Len(before[tg]) : before[tg][i] # after[tg][i] }
+         lo == CHOOSE i \in ch : \A j \in ch : i <= j
+         hi == CHOOSE i \in ch : \A j \in ch : j <= i
+     IN ContainsOctets(octets, Concat([ k \in 1 .. (hi - lo + 1) |-> after[tg][lo + k - 1] ]))
 RRFrame(sess, ctx, timeout, cip) == EncEnip(CmdSendRR, sess, 0, ctx, 0, EncSendData(timeout, <<NullAddr, UnconnData(cip)>>))
 
 \* total length of the frame starting at offset `at' (0-based) of an octet stream, if its header is complete
